@@ -686,7 +686,9 @@ func ruleClosedEnums(c *Ctx) {
 		lblKey := F(P.Method("github.com/pingcap/kvproto/pkg/metapb", "StoreLabel", "GetKey"))
 		named := false
 		for _, f := range append([]*ssa.Function{mlc}, mlc.AnonFuncs...) {
-			if hasComparison(f, "== !=", func(v ssa.Value) bool { return derivesFrom(v, func(w ssa.Value) bool { return fieldOfField(strip(w)) == keyF || isLoadOf(w, keyF) }, 2) },
+			if hasComparison(f, "== !=", func(v ssa.Value) bool {
+				return derivesFrom(v, func(w ssa.Value) bool { return fieldOfField(strip(w)) == keyF || isLoadOf(w, keyF) }, 2)
+			},
 				func(v ssa.Value) bool {
 					return derivesFrom(v, func(w ssa.Value) bool {
 						if resultOfCall(lblKey)(w) {
